@@ -788,7 +788,7 @@ def check_simulator(ctx):
     gp = repo.func(f"{WF}:Wavefunction.get_probabilities")
     ctx.analysed(gp)
     rets = returned_exprs(gp.node)
-    ok = len(rets) == 1 and count_reversals(rets[0]) == 0 and "self.amplitudes" in norm(rets[0]) and not any(isinstance(n, ast.Subscript) for n in ast.walk(rets[0]))
+    ok = len(rets) == 1 and not isinstance(rets[0], ast.IfExp) and count_reversals(rets[0]) == 0 and "self.amplitudes" in norm(rets[0]) and not any(isinstance(n, ast.Subscript) for n in ast.walk(rets[0]))
     ctx.check(ok, R6, gp.key, "probabilities are element-wise |amplitude|^2 in amplitude order", "get_probabilities re-orders or slices the amplitudes", gp)
     ex = repo.func(f"{SIM}:BaseWavefunctionSimulator.get_exact_expectation_values")
     ctx.analysed(ex)
